@@ -75,7 +75,10 @@ def run_case(case):
                 fac[si] = K(SS(core.scheme_float(B, T, unit)))
             sc = fac[si].get_kemeny_score(Ranking(am.norm_ranking(case["c"])), ds)
             v, exact = core.to_units(sc, unit)
-            vals.append([v, 1 if exact else 0])
+            if abs(float(sc) * unit) >= 2 ** 31 - 1:
+                vals.append([0, 2])          # beyond TLC's 32-bit integers under this (probing) scheme: not compared
+            else:
+                vals.append([v, 1 if exact else 0])
             r = "score"
         except _impl["Inv"]:
             r = "refused"
